@@ -301,6 +301,11 @@ func stepGraphemeCluster(buf []byte, state int) ([]byte, int, int, int, bool) {
 	}
 	width := boundaries >> uniseg.ShiftWidth
 	consumed := len(buf) - len(rest)
+	if len(rest) == 0 {
+		// At the end of the input uniseg's state describes the last character
+		// instead of the next one; whatever arrives later is measured afresh.
+		newState = -1
+	}
 	return cluster, consumed, width, newState, true
 }
 
